@@ -53,7 +53,7 @@ class TU:
         # records/enums defined out of line (struct outer::inner { ... }) are lexically at namespace scope;
         # name them by their semantic parent
         for nid, n in list(self.by_id.items()):
-            if n.get('kind') in ('CXXRecordDecl', 'EnumDecl') and n.get('parentDeclContextId') in self.qual and n.get('name'):
+            if n.get('kind') in ('CXXRecordDecl', 'EnumDecl', 'VarDecl') and n.get('parentDeclContextId') in self.qual and n.get('name'):
                 self.qual[nid] = self.qual[n['parentDeclContextId']] + '::' + n['name']
 
     def _loc(self, l):
@@ -1249,6 +1249,14 @@ class Lowering:
         if md is not None and md.get('kind') in ('CXXMethodDecl', 'CXXConversionDecl', 'CXXDestructorDecl'):
             raise Unsupported('bound member function outside a call')
         b = self.expr(base, ctx)
+        # accessing a member needs the record's definition in the generated types
+        try:
+            bt = ty(base).strip()
+            if bt.endswith('*'):
+                bt = bt[:-1]
+            self.ctype(self.strip_cvref(bt))
+        except Unsupported:
+            pass
         if md is not None and md.get('kind') == 'FieldDecl' and ty(md).strip().endswith('&'):
             # member of reference type: stored as a pointer, used as the referent
             inner = ('%s->%s' % (b, name)) if n.get('isArrow') else ('%s.%s' % (b, name))
@@ -1433,6 +1441,19 @@ class Lowering:
             return self.expr(sub, ctx)
         if ck in ('UncheckedDerivedToBase', 'DerivedToBase'):
             return self.derived_to_base(n, sub, ctx)
+        if ck == 'BaseToDerived':
+            # static_cast<Derived *>(base pointer): the generated structs keep a (single, non-virtual) base as
+            # their first member, so the object addresses coincide exactly as in the C++ layout
+            path = n.get('path') or []
+            t = ty(n).strip()
+            if len(path) == 1 and not path[0].get('isVirtual') and t.endswith('*'):
+                drec = self.find_record(self.strip_cvref(t[:-1].strip()))
+                bases = (drec or {}).get('bases') or []
+                if drec is not None and len(bases) >= 1:
+                    b0 = bases[0]['type'].get('desugaredQualType') or bases[0]['type']['qualType']
+                    if b0 == path[0]['name'] or b0.endswith(path[0]['name']):
+                        return '((%s)%s)' % (self.ctype(t), self.expr(sub, ctx))
+            raise Unsupported('base-to-derived cast not through the first base')
         raise Unsupported('explicit cast kind %s' % ck)
 
     def e_CStyleCastExpr(self, n, ctx, discard=False):
